@@ -1,4 +1,5 @@
 import Dasp.Lemmas.Converter
+import Dasp.Lemmas.EnvRounding
 /-! # C08 — Rate converter positions and consumes source frames exactly by the rate ratio
 
 Property text (properties.jsonl, C08): "With playback ratio r_k in effect for output k (constant, or
@@ -148,6 +149,23 @@ theorem linear_blend_between (l r x : Rat) (h0 : 0 ≤ x) (h1 : x ≤ 1) :
   · rcases le_total l r with h | h
     · rw [max_eq_right h]; nlinarith
     · rw [max_eq_left h]; nlinarith
+
+/-- ("never outside the interval spanned by those two frames (up to float rounding)") the blend as the f64 code
+    computes it — `fl(fl(fl(r − l)·x) + l)`, one rounding after each of the three operations — for ANY rounding that
+    is monotone, idempotent and fixes 0 (round-to-nearest-even is: `Dasp.softfloat_rounding_mono`), a representable left
+    sample `l` and `0 ≤ x ≤ 1`: the result never passes `l`, and on the side of `r` never passes `fl(fl(r − l) + l)`,
+    the float recomputation of `r` itself (equal to `r` up to the two roundings in it, `Dasp.Envelope.Rounding.overshoot_bound`) -/
+theorem linear_blend_between_rounded {rnd : Rat → Rat} (ok : Dasp.Envelope.Rounding.RndMono rnd) (l r x : Rat)
+    (hl : rnd l = l) (h0 : 0 ≤ x) (h1 : x ≤ 1) :
+    (l ≤ r → l ≤ rnd (rnd (rnd (r - l) * x) + l) ∧ rnd (rnd (rnd (r - l) * x) + l) ≤ rnd (rnd (r - l) + l)) ∧
+    (r ≤ l → rnd (rnd (r - l) + l) ≤ rnd (rnd (rnd (r - l) * x) + l) ∧ rnd (rnd (rnd (r - l) * x) + l) ≤ l) := by
+  have h := Dasp.Envelope.Rounding.envR_between ok x x r l hl ⟨h0, h1⟩ ⟨h0, h1⟩
+  rw [Dasp.Envelope.Rounding.envR_eq] at h
+  simp only [ite_self, Dasp.Envelope.Rounding.eStar, ← sub_eq_add_neg] at h
+  have e1 : l + rnd (rnd (r - l) * x) = rnd (rnd (r - l) * x) + l := add_comm _ _
+  have e2 : l + rnd (r - l) = rnd (r - l) + l := add_comm _ _
+  rw [e1, e2] at h
+  exact h
 
 /-- the same for `i16` frames (conversion to f64 = `/ 32768`, back = truncating saturating cast): the
     converted blend is an `i16` between the two samples — here with no rounding allowance at all. -/
